@@ -81,3 +81,9 @@ Proof. exact iscsi_xfer_spec. Qed.
 
 Theorem C03_sgio_arguments : sgio_args_ok = true.
 Proof. exact sgio_args_checked. Qed.
+
+(* RE-ISSUE. Neither transport's execute() stores to cmd.cdb / cmd.dataout / cmd.datain other than filling bytes in
+   place (every store to the command object is REGENERATED into exec_cmd_stores): the buffers a command object is
+   handed over with on a second execute() are the ones its constructor sized, whatever the device transferred before. *)
+Theorem C03_execute_keeps_buffers : buffers_kept = true.
+Proof. vm_compute. reflexivity. Qed.
